@@ -84,7 +84,7 @@ def _case(arg):
     nonzero_flavs = 14 - nmiss
     tg_changed = tg is not None and not (len(tg) == nx and np.array_equal(tg, xg))
     out["nontrivial"] = nonzero_flavs >= 3 and (tvar == "none" or tg_changed)
-    wit = dict(index=i, form=form, mode=(["disk", "memory"][(i // 2) % 2]), qed=qed, order=list(order), rotate=rotate, tvar=tvar, log=log, degree=deg,
+    wit = dict(index=i, form=form, mode=["disk", "memory"][int(np.random.default_rng([seed, 43, i, 1]).integers(2))], qed=qed, order=list(order), rotate=rotate, tvar=tvar, log=log, degree=deg,
                xgrid=xg.tolist(), targetgrid=None if tg is None else tg.tolist(), mugrid=mugrid, mu0=mu0, missing=missing, with_err=with_err)
 
     # ------------------------------------------------------------ oracle side
@@ -94,7 +94,7 @@ def _case(arg):
         rot, labels_rot = flavor_f.uni_matrix(), flavor_f.UNI_LABELS
     else:
         rot, labels_rot = flavor_f.evol_matrix(), flavor_f.EVOL_LABELS
-    mode = "memory" if (i // 2) % 2 else "disk"
+    mode = ["disk", "memory"][int(np.random.default_rng([seed, 43, i, 1]).integers(2))]  # independent of the call form
     st = dict(Rx=None)
 
     def expect(T, frot, inputs):
